@@ -388,7 +388,8 @@ def extent_points(r):
 def gen_disk(rng, tier, allow_known=False):
     mode = "handles" if rng.random() < 0.3 else "descriptor"
     n = rng.choice([1, 1, 2, 2, 3, 3, 4, 5, 8])
-    stem = rng.choice(["disk", "disk", "my disk", "dïsk üñí", "ディスク", "a.b  c'#=x", "RW 5 FLAT", " lead"])
+    stem = rng.choice(["disk", "disk", "my disk", "dïsk üñí", "ディスク", "a.b  c'#=x", "RW 5 FLAT", " lead",
+                       "li\u2028ne", "ff\x0cff", "ne\u0085l", "vt\x0bvt", "fs\x1cfs", "ps\u2029ps"])
     exts = []
     info = {"has_unmapped_extent_kind": False, "has_flat_start_sector": False}
     for i in range(n):
